@@ -174,6 +174,30 @@ def proof_gate(prop, spec):
     return res
 
 
+def coqchk_gate(spec):
+    """independent re-check of the compiled property theorems (thorough tier): returns dict"""
+    mod = "HV.%s.Props" % spec["coq_dir"].replace("/", ".")
+    rc, out = run(["coqchk", "-silent", "-o", "-Q", COQ, "HV", mod], cwd=COQ, timeout=3000)
+    res = dict(ok=False, cmd="coqchk -silent -o -Q /verif/coq HV " + mod, axioms=[], detail="")
+    if rc != 0:
+        res["detail"] = out[-1500:]
+        return res
+    m = re.search(r"\* Axioms:(.*?)\n\s*\n\* Constants/Inductives relying on type-in-type:(.*?)\n\s*\n\* Constants/Inductives relying on unsafe \(co\)fixpoints:(.*?)\n\s*\n\* Inductives whose positivity is assumed:(.*?)\n", out, re.S)
+    if not m:
+        res["detail"] = "cannot parse coqchk summary: " + out[-800:]
+        return res
+    ax = [a.strip() for a in m.group(1).strip().splitlines() if a.strip() and a.strip() != "<none>"]
+    res["axioms"] = ax
+    unsafe = [g.strip() for g in (m.group(2), m.group(3), m.group(4)) if g.strip() != "<none>"]
+    allowed = STDLIB_AXIOMS | set(spec.get("allowed_axioms", []))
+    bad = [a for a in ax if a not in allowed and a.split(".")[-1] not in allowed]
+    if bad or unsafe:
+        res["detail"] = "coqchk reports axioms %s / unsafe features %s" % (bad, unsafe)
+        return res
+    res["ok"] = True
+    return res
+
+
 def strip_comments(s):
     out, depth, i = [], 0, 0
     while i < len(s):
@@ -337,6 +361,12 @@ def check(prop, spec, tier="quick", seed=None, replay=None):
         return do_replay(prop, spec, replay, release)
 
     pg = proof_gate(prop, spec)
+    if pg["ok"] and tier == "thorough":
+        ck = coqchk_gate(spec)
+        pg["coqchk"] = ck
+        if not ck["ok"]:
+            pg["ok"] = False
+            pg["detail"] = "coqchk: " + ck["detail"]
     ag_ok, ag = anchor_gate(spec)
     n = spec["n_thorough"] if tier == "thorough" else spec["n_quick"]
     rc_ = run_cases(prop, spec, seed, n, tier, release=release)
@@ -436,6 +466,7 @@ def write_evidence(prop, spec, tier, seed, t0, pg, ag, rc_, violations, note="",
         theorems=(pg or {}).get("theorems", []),
         axioms=(pg or {}).get("axioms", {}),
         proof_gate_detail=(pg or {}).get("detail", ""),
+        coqchk=(pg or {}).get("coqchk", "not run in the quick tier"),
         anchors=ag or [],
         explanation=spec.get("explanation", "") + (" | " + note if note else ""),
     )
